@@ -423,7 +423,8 @@ def structured_cases():
     out = []
     for d in (2, 3):
         L = np.array([3.0, 4.0, 5.0][:d])
-        tilt_sets = [np.zeros(3), np.array([0.01, 0.008, 0.012]), np.array([1.4, 0.0, 0.0]), np.array([-1.3, 0.9, -1.7]), np.array([1.2, 1.1, 1.6]), np.array([0.0, 0.0, 1.9])]
+        tilt_sets = [np.zeros(3), np.array([0.01, 0.008, 0.012]), np.array([1.4, 0.0, 0.0]), np.array([-1.3, 0.9, -1.7]), np.array([1.2, 1.1, 1.6]), np.array([0.0, 0.0, 1.9]),
+                     np.array([2.4, 0.0, 0.0]), np.array([-2.2, 1.9, 3.1])]        # tilts beyond half a box length ("box tilt large")
         for tl in tilt_sets:
             Hm = np.diag(L).astype(float)
             Hm[1, 0] = tl[0]
